@@ -1,6 +1,7 @@
 package main
 
 import (
+	"runtime"
 	"crypto/sha256"
 	"fmt"
 	"go/token"
@@ -75,7 +76,9 @@ func (w *World) verifyFunction(pi *PkgInfo, fn *ssa.Function, c *Contract) (res 
 				res.SpecErrs = append(res.SpecErrs, se.msg)
 				return
 			}
-			panic(r)
+			buf := make([]byte, 4096)
+			n := runtime.Stack(buf, false)
+			res.SpecErrs = append(res.SpecErrs, fmt.Sprintf("engine panic: %v\n%s", r, buf[:n]))
 		}
 	}()
 	saved := curFloatSort
